@@ -268,8 +268,8 @@ def _delete_stale(spec, path, parent, outside, occ, out):
                 darr.asraggedarray(path, [[1, 2], [3]], dtype='int8', overwrite=True, metadata={'now': 'ragged'})
             else:
                 darr.asarray(path, np.arange(4, dtype='int8'), overwrite=True, metadata={'now': 'array'})
-        except OSError:
-            out.nontrivial = False      # a colliding foreign entry prevents the re-creation: not this scenario
+        except Exception:
+            out.nontrivial = False      # a colliding foreign entry prevents (or garbles) the re-creation: not this scenario
             return
     before = snapshot(parent)
     try:
